@@ -1406,9 +1406,44 @@ impl ValidationCache {
         key: &ValidationCacheKey,
         context: &RrsetVerificationContext<'_>,
     ) -> Option<Result<RrsetProof, ProofError>> {
-        let (ttl, cached) = self.inner.lock().get_mut(key)?.clone();
+        let (ttl, mut cached) = self.inner.lock().get_mut(key)?.clone();
 
         if Instant::now() < ttl {
+            // A cached verdict must not outlive the signature it rests on, and the TTL it
+            // carries must keep shrinking with the remaining signature lifetime.  The cache key
+            // covers the RRSIGs, so the signature that was verified is still at `rrsig_index`:
+            // check its validity period against the validator's current time (RFC 4035 5.3.1)
+            // and derive the TTL afresh (RFC 4035 5.3.3).
+            if let Ok(RrsetProof {
+                proof: Proof::Secure,
+                adjusted_ttl,
+                rrsig_index: Some(index),
+            }) = &mut cached
+            {
+                let rrsig = context
+                    .rrset
+                    .signatures
+                    .get(*index)
+                    .and_then(|record| record.try_borrow::<RRSIG>())?;
+                let input = rrsig.data().input();
+                let current_time = SerialNumber::new(context.current_time);
+                if !(current_time <= input.sig_expiration && current_time >= input.sig_inception) {
+                    debug!(
+                        name = ?context.key.name,
+                        record_type = ?context.key.record_type,
+                        "cached DNSSEC validation is outside the RRSIG validity period",
+                    );
+                    return None;
+                }
+                if let Some(first_record) = context.rrset.records.first() {
+                    *adjusted_ttl = Some(
+                        rrsig
+                            .data()
+                            .authenticated_ttl(first_record, context.current_time),
+                    );
+                }
+            }
+
             debug!(
                 name = ?context.key.name,
                 record_type = ?context.key.record_type,
